@@ -192,8 +192,12 @@ func setupDo(
 	if list, ok2 := args[1].(slip.List); !ok2 || len(list) == 0 {
 		slip.TypePanic(s, depth, "do test", args[1], "list")
 	} else {
+		// The end-test can be any form, a symbol or literal as in (do () (t))
+		// as well as a function call.
 		if t1, ok3 := list[0].(slip.List); ok3 {
 			test = slip.ListToFunc(ns, t1, depth)
+		} else {
+			test = list[0]
 		}
 		rforms = list[1:]
 	}
